@@ -33,8 +33,9 @@ type Swarm struct {
 	tellHub swarmutil.TellHub[Addr]
 	askHub  swarmutil.AskHub[Addr]
 
-	mu    sync.RWMutex
-	conns map[string]*Conn
+	mu     sync.RWMutex
+	conns  map[string]*Conn
+	closed bool
 }
 
 func New(laddr string, privateKey ssh.Signer, opts ...Option) (*Swarm, error) {
@@ -83,7 +84,19 @@ func (s *Swarm) LocalAddrs() []Addr {
 func (s *Swarm) Close() error {
 	s.tellHub.CloseWithError(p2p.ErrClosed)
 	s.askHub.CloseWithError(p2p.ErrClosed)
-	return s.l.Close()
+	err := s.l.Close()
+	// Close the connections as well: their loops and the ssh transport goroutines under them end only then.
+	s.mu.Lock()
+	s.closed = true
+	conns := make([]*Conn, 0, len(s.conns))
+	for _, c := range s.conns {
+		conns = append(conns, c)
+	}
+	s.mu.Unlock()
+	for _, c := range conns {
+		c.Close()
+	}
+	return err
 }
 
 func (s *Swarm) PublicKey() PublicKey {
@@ -189,6 +202,10 @@ func (s *Swarm) getConn(ctx context.Context, addr Addr) (*Conn, error) {
 
 	s.mu.Lock()
 	defer s.mu.Unlock()
+	if s.closed {
+		c.sconn.Close()
+		return nil, p2p.ErrClosed
+	}
 	remoteAddr := c.RemoteAddr()
 	c2, exists := s.conns[remoteAddr.Key()]
 	if exists {
@@ -217,16 +234,24 @@ func (s *Swarm) serveLoop(ctx context.Context) {
 				log.Println("ERROR:", err)
 				return
 			}
-			s.addConn(c)
+			if !s.addConn(c) {
+				c.sconn.Close()
+				return
+			}
 			go c.loop(ctx)
 		}()
 	}
 }
 
-func (s *Swarm) addConn(c *Conn) {
+// addConn registers an accepted connection; it reports false when the swarm has been closed meanwhile.
+func (s *Swarm) addConn(c *Conn) bool {
 	s.mu.Lock()
 	defer s.mu.Unlock()
+	if s.closed {
+		return false
+	}
 	s.conns[c.RemoteAddr().Key()] = c
+	return true
 }
 
 func (s *Swarm) deleteConn(c *Conn) {
